@@ -137,4 +137,24 @@ C12InitQuick(c) == C12InitOver(c, 1, 1, {None, hH})
 C12Reqs == {[host |-> h, m |-> m, path |-> p, hdr |-> Hdr2(a, None), ip |-> ip] :
                h \in {hH, hHG}, m \in {GET, ET}, p \in {pA, pB}, a \in {None, v1}, ip \in {ip1, ip9}}
 C12ReqsA == {q \in C12Reqs : q.path = pA}
+(* the larger universe used for behaviour generation: a third client address on which the      *)
+(* filters disagree (sibling entries / rules with different filters), a host that differs from   *)
+(* a configured one only in letter case                                                          *)
+ip5 == [fam |-> 4, bits |-> <<0, 1>>]
+Block5 == [on |-> TRUE, allow |-> <<>>, block |-> <<[fam |-> 4, bits |-> <<0, 1>>]>>, dflt |-> FALSE]
+uABlock5 == F(E(pA, None, NoRE, None, None, FALSE, None), Block5)            \* /a, another path filter
+uBAllow1 == F(E(pB, None, NoRE, None, None, FALSE, None), Allow1)            \* /b, allow list
+uPrefixBlock5 == F(E(None, pRoot, NoRE, None, None, FALSE, None), Block5)    \* prefix /, path filter
+C12SimTemplates == C12Templates \cup {uABlock5, uBAllow1, uPrefixBlock5}
+C12SimShells == {FShell(h, f) : h \in {None, hH, hHG}, f \in {NoFilter, Block9, Block5}}
+C12SimServerFilters == {NoFilter, Block9, Block5}
+hUp == <<"H">>
+C12SimReqs == {[host |-> h, m |-> m, path |-> p, hdr |-> Hdr2(a, None), ip |-> ip] :
+                  h \in {hH, hHG, hUp}, m \in {GET, ET}, p \in {pA, pB}, a \in {None, v1}, ip \in {ip1, ip5, ip9}}
+C12SimReqsA == {q \in C12SimReqs : q.path = pA}
+C12FilterFocus == {uPlainA, uABlock5, uAAllow1, uBBlock9, uBAllow1, uPrefixBlock5}
+(* few requests (one host, one method, two paths, three clients) over sibling entries / rules   *)
+(* with different filters: every (client, path) pair repeats within a short behaviour           *)
+C05FocusReqs == {[host |-> hH, m |-> GET, path |-> p, hdr |-> Hdr2(None, None), ip |-> ip] : p \in {pA, pB}, ip \in {ip1, ip5, ip9}}
+C05FocusShells == {FShell(h, f) : h \in {None, hH}, f \in {NoFilter, Block9, Block5}}
 =============================================================================
